@@ -585,7 +585,8 @@ impl HGen<'_> {
 
 pub fn gen_history(rng: &mut Rng, kind: &DynKind, shape: &str, max_len: usize, fault_pct: usize) -> HistCase {
     let usize_universe = |rng: &mut Rng| -> Vec<usize> {
-        let k = rng.range(4, 8);
+        // mostly few labels (collisions, re-additions); one history in sixteen has 9-14 of them
+        let k = if rng.pct(6) { rng.range(9, 14) } else { rng.range(4, 8) };
         match rng.below(3) {
             0 => (1..=k).collect(),
             1 => (0..k).collect(),
